@@ -1,7 +1,8 @@
 //! C09: packed / compressed integer vectors return every stored value unchanged.
-//! M+S cell: UintVecMin0 (operation histories evaluated against the Coq model, incl. raw memory).
-//! S-only cells: ZipIntVec, SortedUintVec(+builder, three presets), IntVec<T> x 3 constructors x 8 types,
-//! UintVector (bulk + push).
+//! Every cell is M+S: the direct shadow-Vec oracle decides the property on the real code, and a sample of the cases
+//! is replayed in the Coq mechanism models (coq/C09/Cases.v): UintVecMin0 operation histories incl. raw memory
+//! (CMin0), UintVecMin0::build_from_u32 / build_from_i32 (CMin0Typed), ZipIntVec (CZip), SortedUintVec + builder
+//! (CSorted), IntVec<T> x 3 constructors x 8 types (CIntVec), UintVector bulk + push (CUintVec).
 use crate::util::*;
 use serde_json::{json, Value};
 use zipora::containers::specialized::UintVector;
@@ -337,7 +338,7 @@ pub fn run(args: &Args) {
     if std::env::var("C09_LOUD").is_ok() { std::panic::set_hook(Box::new(|i| { if let Some(l) = i.location() { if l.file().contains("harness") || l.file().contains("c09") { eprintln!("harness panic at {}:{}", l.file(), l.line()); } } })); }
     let th = args.thorough;
     let mut cx = Ctx {
-        sum: Summary::new("C09", "UintVecMin0: generated operation histories (new/set/get/push_back/resize/clear/build_from/dump) at widths 0,1,3,7,8,9,13,31,32,33,57,58 with values at mask and mask+1, every element read back and raw memory dumped, compared with the Coq model and with a shadow Vec; IntVec<8 types> x 3 constructors: all sequences of length <=4 over {0,1,MAX-1,MAX,MIN}, then 13 shapes (constant, arithmetic, sorted small/big steps, sorted with a jump near the end, one inversion, small range, full range, few huge outliers, type extremes, per-block bases, around zero, shifted random) at lengths 0..257 around 4/8/32/64/128/256 and (fewer) around 1000/1024/2048/10000/16384, read back at every index (sampled above 400) and five indices past the end; SortedUintVec: three presets and custom (block 16..256, offset 8..32, sample 16..64 bits, simd on/off, some invalid) x sorted sequences whose in-block deltas sit at 2^w-1, 2^w, 2^w+1 and whose bases sit at the sample-width limit and at u64::MAX, get/get2/get_block at every index and past the end; ZipIntVec: build_from_usize/u32, push with fixed and growing width, values up to usize::MAX; UintVector build_from and push (prefix re-read during construction) incl. runs and >1000 elements; non-trivial = history of >=3 ops or sequence of >=2 elements"),
+        sum: Summary::new("C09", "UintVecMin0: generated operation histories (new/set/get/push_back/resize/clear/build_from/dump) at widths 0,1,3,7,8,9,13,31,32,33,57,58 with values at mask and mask+1, every element read back and raw memory dumped, compared with the Coq model and with a shadow Vec; IntVec<8 types> x 3 constructors: all sequences of length <=4 over {0,1,MAX-1,MAX,MIN}, then 13 shapes (constant, arithmetic, sorted small/big steps, sorted with a jump near the end, one inversion, small range, full range, few huge outliers, type extremes, per-block bases, around zero, shifted random) at lengths 0..257 around 4/8/32/64/128/256 and (fewer) around 1000/1024/2048/10000/16384, read back at every index (sampled above 400) and five indices past the end; SortedUintVec: three presets and custom (block 16..256, offset 8..32, sample 16..64 bits, simd on/off, some invalid) x sorted sequences whose in-block deltas sit at 2^w-1, 2^w, 2^w+1 and whose bases sit at the sample-width limit and at u64::MAX, get/get2/get_block at every index and past the end; IntVec additionally: one vector of more than 10000 elements whose short last block carries the widest offsets (full analysis, block layout) and 59..63-bit fields whose last field ends in the last byte of the buffer (n*w = 121..127 mod 128); ZipIntVec: build_from_usize/u32, push with fixed and growing width, values up to usize::MAX; UintVector build_from and push (prefix re-read during construction) incl. runs and >1000 elements; UintVecMin0::build_from_i32/u32 incl. i32::MIN with i32::MAX; non-trivial = history of >=3 ops or sequence of >=2 elements"),
         shards: CoqShards::new(HEADER, 100),
         budget: if th { 12000 } else { 1500 },
         model_sorted: MODEL_SORTED, n_sorted_coq: 0, cap_sorted_coq: if th { 4000 } else { 450 },
